@@ -193,7 +193,7 @@ Definition step (tb : tables) (st : cache * Z) (e : ev) : option (cache * Z) :=
       let tag := nth_str (t_tags tb) tagi in
       let addr := nth_str (t_addrs tb) addri in
       let e := {| e_id := sid_of id; e_addr := addr; e_tag := tag;
-                  e_key := Some {| k_data := repeat x00 32; k_proto := s_AES |}; e_policy := None;
+                  e_key := Some {| k_data := repeat x5a 32; k_proto := s_AES |}; e_policy := None;   (* not a client-side record, its own key *)
                   e_exp := Some (now + t_dur tb); e_lease := lease |} in
       Some (map_command (store_new c e) tag addr (nth_str (t_cmds tb) cmdi) (sid_of id), now)
   end.
